@@ -298,7 +298,10 @@ pub fn report_lines(out: &mut Out, rng: &mut Rng, kit: &Kit, s: &Subject, name: 
 			2 => by_pos.get(rng.below(by_pos.len().max(1) as u64) as usize).map(|x| x.1).unwrap_or(1),
 			_ => rng.below(size + 2),
 		};
-		let max = match rng.below(6) {
+		let max = match rng.below(8) {
+			// far beyond the MMR (the loop must not walk to the requested bound: repair 565fae636)
+			6 => Some(1u64 << 40),
+			7 => Some(u64::MAX),
 			0 => None,
 			1 => Some(size),
 			2 => Some(size.saturating_sub(1)),
